@@ -172,7 +172,7 @@ class LinearForm(_Form):
             values_e = (values_e_pg * dX_e_pg).integrate()
 
             # add data
-            data[:, i] = values_e
+            data[:, i, 0] = np.reshape(values_e, -1)
 
         return data
 
@@ -196,8 +196,8 @@ class LinearForm(_Form):
 
         # get values
         values = self.Integrate_e(field=field).ravel()
-        rows = groupElem.Get_rows_e(dof_n).ravel()
-        columns = np.ones_like(rows)
+        rows = groupElem.Get_assembly_e(dof_n).ravel()
+        columns = np.zeros_like(rows)
 
         # get shape
         Ndof = groupElem.Ncoords * dof_n
